@@ -255,7 +255,8 @@ def to_instance(gen, t, v, memo=None):
         if t['p'] == 'Unicode':
             return TEXTS.get(v[1], v[1])
         x = S.leaf_native(t['p'], v[1])
-        return [x] if t['p'] == 'ByteArray' else x
+        # (a ByteArray value is a sequence of chunks whose concatenation is the value: hand it over in two uneven chunks)
+        return ([x[:1], x[1:]] if len(x) >= 2 else [x]) if t['p'] == 'ByteArray' else x
     if k == 'attr':
         return to_instance(gen, t['of'], v, memo)
     if k == 'arr':
